@@ -234,6 +234,10 @@ func (s *shaper) callTok(call ssa.CallInstruction) (tok, bool) {
 	}
 	if f := cc.StaticCallee(); f != nil && f.Signature.Recv() != nil && len(cc.Args) > 0 && s.streamArg(cc.Args[0]) {
 		if f.Pkg == nil || !strings.HasPrefix(f.Pkg.Pkg.Path(), core.Module) {
+			if core.FuncKey(f) == "bytes.Buffer.Write" && len(cc.Args) == 2 {
+				// buf.Write(data): the bytes appended raw, like basic.WriteN(&buf, data, len(data))
+				return tok{Kind: "prim", Name: "Bytes", Dir: "write", Val: cc.Args[1], Pos: call.Pos()}, true
+			}
 			return tok{}, false // buf.Bytes(), buf.Len() …
 		}
 	}
@@ -349,6 +353,7 @@ func (s *shaper) inlineHelper(call ssa.CallInstruction, f *ssa.Function) (tok, b
 		}
 	}
 	var param ssa.Value
+	onlyIfAccessor := false
 	cc := call.Common()
 	for i, a := range cc.Args {
 		if s.streamArg(a) && i < len(f.Params) {
@@ -362,6 +367,10 @@ func (s *shaper) inlineHelper(call ssa.CallInstruction, f *ssa.Function) (tok, b
 				sites, _ := s.c.CallSites()
 				if len(sites[f]) == 1 {
 					param = f.Params[i]
+				} else {
+					// … or a helper that does nothing but read one primitive and hand it
+					// back (readLength): decided below, once its shape is known
+					param, onlyIfAccessor = f.Params[i], true
 				}
 			}
 		}
@@ -391,6 +400,9 @@ func (s *shaper) inlineHelper(call ssa.CallInstruction, f *ssa.Function) (tok, b
 			k.Val, k.Pos = firstResult(cv), call.Pos()
 			return k, true
 		}
+	}
+	if onlyIfAccessor {
+		return tok{}, false
 	}
 	return tok{Kind: "inline", Kids: kids, Pos: call.Pos(), Fn: f}, true
 }
@@ -544,6 +556,32 @@ func (s *shaper) seq(start, stop *ssa.BasicBlock, seen map[*ssa.BasicBlock]bool)
 							if prev.Dir == "read" && prev.Val != nil && core.StripConv(side) == prev.Val {
 								rep.CountPrev = true
 							}
+							// count-down form: for remaining := size; remaining > 0; remaining--
+							if phi, isPhi := core.StripConv(side).(*ssa.Phi); isPhi && prev.Dir == "read" && prev.Val != nil && phi.Block() == cur {
+								starts, steps := false, true
+								for _, e := range phi.Edges {
+									e = core.StripConv(e)
+									if e == prev.Val {
+										starts = true
+										continue
+									}
+									bo, isBo := e.(*ssa.BinOp)
+									k, isK := int64(0), false
+									if isBo {
+										k, isK = core.ConstInt(bo.Y)
+									}
+									if !isBo || bo.Op != token.SUB || core.StripConv(bo.X) != ssa.Value(phi) || !isK || k != 1 {
+										steps = false
+									}
+								}
+								other := cm.Y
+								if side == cm.Y {
+									other = cm.X
+								}
+								if k, isK := core.ConstInt(other); starts && steps && isK && k == 0 {
+									rep.CountPrev = true
+								}
+							}
 							if prev.Dir == "write" && countDerives(side, prev.Val) {
 								rep.CountPrev = true
 							}
@@ -597,6 +635,42 @@ func (s *shaper) seq(start, stop *ssa.BasicBlock, seen map[*ssa.BasicBlock]bool)
 				if s.returnsQuietly(cur.Succs[1]) && !s.returnsQuietly(cur.Succs[0]) && canSucceed(cur.Succs[1]) {
 					cur = cur.Succs[0]
 					continue
+				}
+			}
+			// `if count == 0 { return empty, nil }` right after the count was read (or
+			// written): the explicit form of a loop that runs zero times
+			if len(out) > 0 {
+				prev := out[len(out)-1]
+				if prev.Kind == "prim" && (prev.Name == "Uint32" || prev.Name == "Int32") && prev.Val != nil {
+					cm, neg := core.CondCmp(last.Cond)
+					isCount := func(v ssa.Value) bool {
+						if prev.Dir == "read" {
+							return core.StripConv(v) == prev.Val
+						}
+						return countDerives(v, prev.Val)
+					}
+					zero := -1
+					var other ssa.Value
+					if isCount(cm.X) {
+						other = cm.Y
+					} else if isCount(cm.Y) {
+						other = cm.X
+					}
+					if k, isK := core.ConstInt(other); other != nil && isK && k == 0 {
+						switch cm.Op {
+						case token.EQL:
+							zero = 0
+						case token.NEQ:
+							zero = 1
+						}
+						if neg && zero >= 0 {
+							zero = 1 - zero
+						}
+					}
+					if zero >= 0 && s.returnsQuietly(cur.Succs[zero]) && canSucceed(cur.Succs[zero]) {
+						cur = cur.Succs[1-zero]
+						continue
+					}
 				}
 			}
 			t, f := cur.Succs[0], cur.Succs[1]
@@ -754,9 +828,21 @@ func streamParam(fn *ssa.Function, method string) ssa.Value {
 			continue
 		}
 		for i := 0; i < it.NumMethods(); i++ {
-			if it.Method(i).Name() == method {
-				return p
+			if it.Method(i).Name() != method {
+				continue
 			}
+			// the stream's method: Read/Write([]byte) (int, error) — not the Write(io.Writer)
+			// of a value that is itself being written
+			sig, _ := it.Method(i).Type().(*types.Signature)
+			if sig != nil && sig.Params().Len() == 1 {
+				if sl, ok := sig.Params().At(0).Type().Underlying().(*types.Slice); ok {
+					if b, ok := sl.Elem().Underlying().(*types.Basic); ok && b.Kind() == types.Uint8 {
+						return p
+					}
+				}
+				continue
+			}
+			return p
 		}
 	}
 	return nil
